@@ -201,6 +201,27 @@ func Schemas(thorough bool) (schemas []M, leaves []M, comps M) {
 	comps["Ma"] = M{"type": "object", "properties": M{"kids": M{"type": "object", "additionalProperties": cref("Mb")}, "n": M{"type": "string", "maxLength": 2}}}
 	comps["Mb"] = M{"type": "object", "properties": M{"a": cref("Ma")}}
 	schemas = append(schemas, cref("Dir"), cref("Ra"), cref("Ma"), cref("Ent"), cref("Rc"))
+	// one component used in two roles: a variant shared by two sums that discriminate by members
+	// (what is unique in one sum is not in the other), a named array referenced as required, optional
+	// and nullable member (a recursive member that is nullable and optional does not compile: C02 fixture)
+	comps["UA"] = M{"type": "object", "required": []string{"a", "x"}, "properties": M{"a": small[0], "x": small[1]}}
+	comps["UB"] = M{"type": "object", "required": []string{"b"}, "properties": M{"b": small[0]}}
+	comps["UC"] = M{"type": "object", "required": []string{"c", "x"}, "properties": M{"c": small[0], "x": small[1]}}
+	comps["Tags"] = M{"type": "array", "items": M{"type": "string", "maxLength": 2}}
+	comps["HA"] = M{"type": "object", "required": []string{"a"}, "properties": M{"a": small[0]}}
+	comps["HB"] = M{"type": "object", "properties": M{"b": small[1]}}
+	schemas = append(schemas,
+		M{"oneOf": []any{cref("UA"), cref("UB")}}, M{"oneOf": []any{cref("UA"), cref("UC")}},
+		M{"type": "object", "required": []string{"a", "b"}, "properties": M{"a": cref("Tags"), "b": M{"nullable": true, "allOf": []any{cref("Tags")}}}},
+		M{"type": "object", "required": []string{"req"}, "properties": M{"req": cref("Tags"), "opt": cref("Tags")}},
+		M{"oneOf": []any{cref("HA"), cref("HB")}},
+		// keywords that meet: required naming a member that is not declared, value constraints next to
+		// an enum, allOf of three members where the first requires what the last declares
+		M{"type": "object", "required": []string{"p", "ghost"}, "properties": M{"p": small[0]}},
+		M{"type": "string", "enum": []any{"a", "abc"}, "minLength": 2},
+		M{"type": "integer", "enum": []any{1, 5, 10}, "minimum": 3},
+		M{"allOf": []any{M{"type": "object", "required": []string{"r"}, "properties": M{"p": small[0]}}, M{"type": "object", "properties": M{"q": small[1]}}, M{"type": "object", "properties": M{"r": small[2]}}}},
+	)
 	schemas = append(schemas, M{"$ref": "#/components/schemas/Tree"})
 	if thorough {
 		// depth 3: every wrapper composition over the small leaves
